@@ -29,7 +29,7 @@ def run(ctx: Ctx) -> None:
     if ctx.tier == "thorough":
         ctx.leanchecker(["O2P.Props.C05"])
     quick = ctx.tier == "quick"
-    cases = lc.build_cases(ctx, 250 if quick else 3000, [4, 6, 8, 10, 12], with_corpus=True, multi_start=True, f_adjacent=True)
+    cases = lc.build_cases(ctx, 250 if quick else 3000, [4, 6, 8, 10, 12], with_corpus=True, multi_start=True, f_adjacent=True, bunched=True)
     ctx.cov["rule"] = (
         "definitions as in C01 plus definitions that open with an AND/OR fork (several start events) plus 64 F-adjacent "
         "definitions (nested loop directly followed by a choice between leaving the outer loop and carrying on, break "
